@@ -1087,51 +1087,14 @@ func ruleUpstreamForward(r *Run) {
 			if !ok {
 				continue
 			}
-			for range []int{0} {
-				for range []int{0} {
-					ld, ok := unwrap(errsVal).(*ssa.UnOp)
-					if !ok || ld.Op != token.MUL {
-						continue // built here (a literal, FormatError): not taken from a frame
-					}
-					src, ok := ld.X.(*ssa.FieldAddr)
-					if !ok {
-						continue
-					}
-					nList++
-					guarded := false
-					sameList := func(v ssa.Value) bool {
-						l2, ok := unwrap(v).(*ssa.UnOp)
-						if !ok || l2.Op != token.MUL {
-							return false
-						}
-						s2, ok := l2.X.(*ssa.FieldAddr)
-						return ok && s2.X == src.X && s2.Field == src.Field
-					}
-					for _, i2 := range allInstrs(fn) {
-						iff, ok := i2.(*ssa.If)
-						if !ok {
-							continue
-						}
-						// which side of the branch is only taken for a non-empty list
-						pos, neg := nonEmptyTest(iff.Cond, sameList, 0)
-						var side *ssa.BasicBlock
-						switch {
-						case pos:
-							side = iff.Block().Succs[0]
-						case neg:
-							side = iff.Block().Succs[1]
-						default:
-							continue
-						}
-						if len(side.Preds) == 1 && (side == snd.Block() || side.Dominates(snd.Block())) {
-							guarded = true
-						}
-					}
-					r.Check(guarded, "R12b.err.empty", fnName(fn), "decoded error list handed on", r.P.pos(snd.Pos()),
-						"the length of the decoded list is tested before the list is handed on as the upstream's errors",
-						"an error list decoded from an upstream frame is handed on without its length being tested: a frame such as {\"type\":\"data\",\"payload\":[]} decodes as an error frame with no errors and reaches the subscriber as an event with neither data nor an error")
-				}
+			counted, guarded := decodedListGuarded(snd.Block(), errsVal, 0)
+			if !counted {
+				continue // built here (a literal, FormatError): not taken from a frame
 			}
+			nList++
+			r.Check(guarded, "R12b.err.empty", fnName(fn), "decoded error list handed on", r.P.pos(snd.Pos()),
+				"the length of the decoded list is tested before the list is handed on as the upstream's errors",
+				"an error list decoded from an upstream frame is handed on without its length being tested: a frame such as {\"type\":\"data\",\"payload\":[]} decodes as an error frame with no errors and reaches the subscriber as an event with neither data nor an error")
 		}
 	}
 	r.AtLeast("R12b.err.empty", "decoded error lists handed on by the reader", nList, 1)
@@ -1272,6 +1235,107 @@ func ruleUpstreamForward(r *Run) {
 		}
 	}
 	r.AtLeast("R12b.skip", "upstream frame reads in a loop", nRead, 1)
+}
+
+// decodedListGuarded: v, used in block `at`, is a list loaded from a decoded struct (counted)
+// and every way to `at` has tested it to be non-empty (guarded). The decoding may sit in a
+// helper of the module that returns the list next to an error: then every return of the helper
+// that hands out the list is guarded in the helper, the other returns hand out nil together
+// with an error, and `at` lies on the success side of the caller's test of that error.
+func decodedListGuarded(at *ssa.BasicBlock, v ssa.Value, depth int) (counted, guarded bool) {
+	v = unwrap(v)
+	if ex, ok := v.(*ssa.Extract); ok && depth < 2 {
+		call, ok := ex.Tuple.(*ssa.Call)
+		if !ok {
+			return false, false
+		}
+		sc := call.Call.StaticCallee()
+		if sc == nil || !inModule(sc) || sc.Blocks == nil {
+			return false, false
+		}
+		var errEx *ssa.Extract
+		for _, ref := range *call.Referrers() {
+			if e2, ok := ref.(*ssa.Extract); ok && isErrorish(e2.Type()) {
+				errEx = e2
+			}
+		}
+		any, all := false, true
+		for _, ret := range returnsOf(sc) {
+			rv := retVals(ret)
+			if ex.Index >= len(rv) {
+				return false, false
+			}
+			if isNilConst(unwrap(rv[ex.Index])) {
+				// nothing handed out: there must be an error instead, and the caller must look at it
+				withErr := false
+				for _, o := range rv {
+					if isErrorish(o.Type()) && !isNilConst(unwrap(o)) {
+						withErr = true
+					}
+				}
+				if !withErr || errEx == nil {
+					all = false
+				}
+				continue
+			}
+			c, g := decodedListGuarded(ret.Block(), rv[ex.Index], depth+1)
+			if !c {
+				return false, false
+			}
+			any = true
+			all = all && g
+		}
+		if !any {
+			return false, false
+		}
+		if errEx != nil {
+			onOK := false
+			for _, t := range failureTests(errEx) {
+				if t.ok != nil && len(t.ok.Preds) == 1 && (t.ok == at || t.ok.Dominates(at)) {
+					onOK = true
+				}
+			}
+			all = all && onOK
+		}
+		return true, all
+	}
+	ld, ok := v.(*ssa.UnOp)
+	if !ok || ld.Op != token.MUL {
+		return false, false
+	}
+	src, ok := ld.X.(*ssa.FieldAddr)
+	if !ok {
+		return false, false
+	}
+	sameList := func(x ssa.Value) bool {
+		l2, ok := unwrap(x).(*ssa.UnOp)
+		if !ok || l2.Op != token.MUL {
+			return false
+		}
+		s2, ok := l2.X.(*ssa.FieldAddr)
+		return ok && s2.X == src.X && s2.Field == src.Field
+	}
+	for _, i2 := range allInstrs(at.Parent()) {
+		iff, ok := i2.(*ssa.If)
+		if !ok {
+			continue
+		}
+		// which side of the branch is only taken for a non-empty list
+		pos, neg := nonEmptyTest(iff.Cond, sameList, 0)
+		var side *ssa.BasicBlock
+		switch {
+		case pos:
+			side = iff.Block().Succs[0]
+		case neg:
+			side = iff.Block().Succs[1]
+		default:
+			continue
+		}
+		if len(side.Preds) == 1 && (side == at || side.Dominates(at)) {
+			guarded = true
+		}
+	}
+	return true, guarded
 }
 
 // decodes: the call hands its argument to encoding/json (Unmarshal, a Decoder), directly or in
